@@ -575,7 +575,10 @@ impl RobotBody {
     }
 
     fn check_required(&self, i: usize, j: usize, skip: &HashSet<usize>) -> bool {
-        !skip.contains(&i) && !skip.contains(&j) &&
+        // The check can only be skipped if both objects did not move (skipped joints,
+        // the base and the environment objects do not move).
+        let unmoved = |k: usize| skip.contains(&k) || k == J_BASE || k >= ENV_START_IDX;
+        !(unmoved(i) && unmoved(j)) &&
             self.safety.min_distance(i as u16, j as u16) > &NEVER_COLLIDES
     }    
 }
